@@ -85,6 +85,10 @@ CHECKS["C06"] = dict(category="translation_validation",
    technique="the emitted Promela is executed by spin's simulator; its TRACE_EXECUTION lines are mapped to the trace alphabet (dequeued events, exits, entries, transitions, logs) and compared with the Lean model of the interpreter on random promela-datamodel charts; the interpreter with the promela datamodel is compared with the same model in the same run",
    text="Per document the model's execution must visit what the interpreter visits, in the same order. The emitted model has one process and no environment, so one simulation is every execution. No theorem about the emitted model exists (the planned route is a Lean model of the emitted step over the C05 tables, shared with C04): the verdict is per document by differential execution - translation validation.",
    design_ref="6 / C06", note="Trusted: spin 6.5 simulation, the mapping of trace lines (checks/c06.py), Model.Large as oracle.")
+CHECKS["C11"] = dict(category="proof",
+   technique="Lean 4 theorems about Model.Invoke (the micro-steppers' invoke bookkeeping over every history of exits, entries, macrostep ends and finishes), tied to the compiled interpreter by feeding the history its monitor trace reports to the model and comparing the invoke/uninvoke notifications; parent/child sessions with real threads explored on the ThreadSanitizer build with an oracle",
+   text="Proved for every history: invocations and cancellations of a state alternate, an invocation starts exactly at a macrostep end with the state active and not yet invoked, is cancelled exactly once when the state is exited (also on exit and re-entry inside one macrostep) and all are cancelled on finish. The communication part of the property (done.invoke exactly once iff the child finished by itself, nothing from a cancelled child, #_parent / #_<id> / autoforward order, finalize first) depends on the interleaving of the parent's and the child's threads: explored with real child sessions under ThreadSanitizer and a watchdog, not proved.",
+   design_ref="6 / C11", note="Trusted: Lean kernel; hand model Model.Invoke; extraction of the history from the monitor trace (checks/c11.py). Partial: thread interleavings sampled.")
 PENDING = {}   # id -> reason (filled while the framework is being built)
 
 def main():
